@@ -8,10 +8,15 @@ package rest
 // with valid / single-change-mutated credentials are served through the bound router (httptest, no socket).
 //
 //   begin kind=rest chain=<native|custom> mw=<11 x 0|1> ncm=<n> nuse=<n> cb=<0|1> to=<ms> w=<word> groups=<g>,<g>,…
-//         g = - | opt(+opt)*    opt = jwt | jwtt | sig | sigl | sign | sigs | pfx | prio | mb | to
+//         g = - | opt(+opt)*    opt = jwt | jwtt | sig | sigl | sign | sigs | sig2 | sigb | sigx | sigd | pfx | prio | mb | to
+//         the signature options differ in the PrivateKeys of the group: sig/sigl {good:k1}, sig2 {alt:k2}, sigb {good:k1, alt:k2},
+//         sigx {good:k2} (the fingerprint of another group with ANOTHER key file), sigd [{good:k2},{good:k1}] (later entry wins),
+//         sigt {good:k1} with a tolerance of 60 s instead of 3600 s, sigm {good:<a key file that does not exist>};
+//         jwtte = WithJwtTransition(secret, "")
 //   bind                                   engine.bindRoutes  => ok | err=signature-config | err=other
 //   req g=<i> r=<a|b> tok=<class> cs=<class> uid=<n> now=<unix>
-//     => token facts (as the jwt sections) csok=<0|1> ran= status= ctx= cm= use= ucb= scb= seen=
+//     => token facts (as the jwt sections) fp=<hex fingerprint sent|-> enc=<k1|k2|-> csok=<0|1> ran= status= ctx= cm= use= ucb= scb= seen=
+//   csok is established against the keys of the route's OWN group only.
 //
 // Facts (token validity per secret, "the signature covers the request") are computed with the Go standard library only.
 
@@ -79,6 +84,8 @@ mbxz2JBlGi+ww2a0OlHeWSq5iqm2Rb8EQsikUO7Tg9hvjcoccFaJWliK5wHSPolG
 rGlcYiqcfaRP1+JJhy2XJQJBAJegvLRnarPKj19d2bJqTRaZgFn9C94wlyUU7BKB
 H+9BjWeEfQHbf80ZzUw9TtuGaT5aHBpQIzUHgzxG2hQheHo=
 -----END RSA PRIVATE KEY-----`
+
+const c18rShortTol = 60
 
 const c18rTol = 3600 // seconds; the requests stay far away from the edges of the window (those are the handler harness' business)
 
@@ -248,7 +255,7 @@ func c18rTokenFacts(auth, secret, prev string) (string, map[string]any) {
 
 // fact: the X-Content-Security header carries a signature that covers the request's timestamp (within the tolerance),
 // method, path, query and body digest under a secret encrypted to a configured key (stdlib only; standard header form)
-func c18rCsFact(r *http.Request, body []byte, keys map[string]*rsa.PrivateKey, now int64) bool {
+func c18rCsFact(r *http.Request, body []byte, keys map[string]*rsa.PrivateKey, now, tol int64) bool {
 	fields := func(s string) map[string]string {
 		m := map[string]string{}
 		for _, f := range strings.Split(s, ";") {
@@ -296,7 +303,7 @@ func c18rCsFact(r *http.Request, body []byte, keys map[string]*rsa.PrivateKey, n
 	if err != nil {
 		return false
 	}
-	if d := now - ts; d > c18rTol || -d > c18rTol {
+	if d := now - ts; d > tol || -d > tol {
 		return false
 	}
 	dg := sha256.Sum256(body)
@@ -351,6 +358,61 @@ type c18rGroup struct {
 	trans  bool
 	prefix string
 	idx    int
+	keys   [][2]string // the PrivateKeys of the group's WithSignature, in order: fingerprint, key name (k1 | k2)
+	tol    int64       // the Expiry of the group's WithSignature, seconds
+}
+
+// the group's own decrypters: fingerprint -> key (a repeated fingerprint: the later entry wins)
+func (g *c18rGroup) keyMap() map[string]*rsa.PrivateKey {
+	m := map[string]*rsa.PrivateKey{}
+	for _, k := range g.keys {
+		if k[1] == "missing" { // no such key file: nothing can be encrypted to it
+			delete(m, k[0])
+			continue
+		}
+		m[k[0]] = c18rKeyOf(k[1])
+	}
+	return m
+}
+
+// a (fingerprint, key name) pair that is valid for the group ("good"/k1 for a group without keys)
+func (g *c18rGroup) validPair() (string, string) {
+	if len(g.keys) == 0 {
+		return "good", "k1"
+	}
+	return g.keys[len(g.keys)-1][0], g.keys[len(g.keys)-1][1]
+}
+
+func (g *c18rGroup) accepts(fp, key string) bool {
+	ok := false
+	for _, k := range g.keys {
+		if k[0] == fp {
+			ok = k[1] == key
+		}
+	}
+	return ok
+}
+
+var c18rParsedKeys = map[string]*rsa.PrivateKey{}
+
+func c18rKeyOf(name string) *rsa.PrivateKey {
+	if k, ok := c18rParsedKeys[name]; ok {
+		return k
+	}
+	text := c18rKey1
+	if name == "k2" {
+		text = c18rKey2
+	}
+	k := c18rPriv(text)
+	c18rParsedKeys[name] = k
+	return k
+}
+
+func c18rOtherKey(name string) string {
+	if name == "k1" {
+		return "k2"
+	}
+	return "k1"
 }
 
 func (g *c18rGroup) path(r string) string {
@@ -364,8 +426,8 @@ func (g *c18rGroup) path(r string) string {
 type c18rSrv struct {
 	svr    *Server
 	groups []*c18rGroup
-	keys   map[string]*rsa.PrivateKey
 	word   string
+	fp, enc string // what the last request's header announced / was encrypted to
 	now    int64 // jwt clock
 	// per request
 	ran, cm, use, ucb, scb int
@@ -379,12 +441,16 @@ func c18rSecret(word string, i int) string { return fmt.Sprintf("sec-%s-group-%d
 func c18rPrev(word string, i int) string   { return fmt.Sprintf("prv-%s-group-%d", word, i) }
 
 func c18rNewSrv(cfg verifh.Cfg, dir string) *c18rSrv {
-	e := &c18rSrv{word: cfg.Str("w", "word"), keys: map[string]*rsa.PrivateKey{"good": c18rPriv(c18rKey1)}}
-	keyFile := filepath.Join(dir, "c18r-k1.pem")
-	if _, err := os.Stat(keyFile); err != nil {
-		if err := os.WriteFile(keyFile, []byte(c18rKey1), 0o600); err != nil {
-			panic(err)
+	e := &c18rSrv{word: cfg.Str("w", "word")}
+	keyFiles := map[string]string{}
+	for name, text := range map[string]string{"k1": c18rKey1, "k2": c18rKey2} {
+		file := filepath.Join(dir, "c18r-"+name+".pem")
+		if _, err := os.Stat(file); err != nil {
+			if err := os.WriteFile(file, []byte(text), 0o600); err != nil {
+				panic(err)
+			}
 		}
+		keyFiles[name] = file
 	}
 	conf := RestConf{Timeout: int64(cfg.Int("to", 0)), MaxBytes: 1 << 20, MaxConns: 10000}
 	mw := cfg.Str("mw", "00000000000")
@@ -440,7 +506,19 @@ func c18rNewSrv(cfg verifh.Cfg, dir string) *c18rSrv {
 			g.opts = strings.Split(gs, "+")
 		}
 		var opts []RouteOption
-		keys := []PrivateKeyConf{{Fingerprint: "good", KeyFile: keyFile}}
+		tol := int64(c18rTol)
+		withKeys := func(strict bool, ks ...[2]string) RouteOption {
+			var confs []PrivateKeyConf
+			for _, k := range ks {
+				file, ok := keyFiles[k[1]]
+				if !ok {
+					file = filepath.Join(dir, "c18r-no-such-file.pem")
+				}
+				confs = append(confs, PrivateKeyConf{Fingerprint: k[0], KeyFile: file})
+			}
+			g.keys, g.tol = ks, tol // a later WithSignature replaces the whole setting
+			return WithSignature(SignatureConf{Strict: strict, Expiry: time.Duration(tol) * time.Second, PrivateKeys: confs})
+		}
 		for _, o := range g.opts {
 			switch o {
 			case "jwt":
@@ -450,13 +528,30 @@ func c18rNewSrv(cfg verifh.Cfg, dir string) *c18rSrv {
 				opts = append(opts, WithJwtTransition(g.secret, g.prev))
 				g.jwt, g.trans = true, true
 			case "sig":
-				opts = append(opts, WithSignature(SignatureConf{Strict: true, Expiry: c18rTol * time.Second, PrivateKeys: keys}))
+				opts = append(opts, withKeys(true, [2]string{"good", "k1"}))
 			case "sigl":
-				opts = append(opts, WithSignature(SignatureConf{Strict: false, Expiry: c18rTol * time.Second, PrivateKeys: keys}))
+				opts = append(opts, withKeys(false, [2]string{"good", "k1"}))
+			case "sig2":
+				opts = append(opts, withKeys(true, [2]string{"alt", "k2"}))
+			case "sigb":
+				opts = append(opts, withKeys(true, [2]string{"good", "k1"}, [2]string{"alt", "k2"}))
+			case "sigx":
+				opts = append(opts, withKeys(true, [2]string{"good", "k2"}))
+			case "sigd":
+				opts = append(opts, withKeys(true, [2]string{"good", "k2"}, [2]string{"good", "k1"}))
+			case "sigt": // a short tolerance: what a neighbouring group still accepts is stale here
+				tol = c18rShortTol
+				opts = append(opts, withKeys(true, [2]string{"good", "k1"}))
+				tol = c18rTol
+			case "sigm": // a key file that cannot be loaded: the group must not be bound at all
+				opts = append(opts, withKeys(true, [2]string{"good", "missing"}))
+			case "jwtte": // WithJwtTransition with an EMPTY previous secret: no previous secret is in force (any more)
+				opts = append(opts, WithJwtTransition(g.secret, ""))
+				g.jwt, g.trans = true, false
 			case "sign":
-				opts = append(opts, WithSignature(SignatureConf{Strict: false, Expiry: c18rTol * time.Second}))
+				opts = append(opts, withKeys(false))
 			case "sigs":
-				opts = append(opts, WithSignature(SignatureConf{Strict: true, Expiry: c18rTol * time.Second}))
+				opts = append(opts, withKeys(true))
 			case "pfx":
 				g.prefix = fmt.Sprintf("/p%d", i)
 				opts = append(opts, WithPrefix(g.prefix))
@@ -541,8 +636,7 @@ func (e *c18rSrv) csHeader(g *c18rGroup, class, method, path, query string, body
 	key := sha256.Sum256([]byte("hmac-key-" + e.word + strconv.Itoa(g.idx)))
 	hkey := key[:16]
 	ts := now
-	fp := "good"
-	encTo := e.keys["good"]
+	fp, enc := g.validPair()
 	sm, sp, sq, sb := method, path, query, body
 	switch class {
 	case "valid":
@@ -550,10 +644,28 @@ func (e *c18rSrv) csHeader(g *c18rGroup, class, method, path, query string, body
 		ts = now - c18rTol - 100
 	case "future":
 		ts = now + c18rTol + 100
+	case "stale-short": // inside the long tolerance, outside the short one
+		ts = now - 10*c18rShortTol
+	case "future-short":
+		ts = now + 10*c18rShortTol
 	case "unknown-fp":
 		fp = "nobody"
 	case "secret-to-other-key":
-		encTo = c18rPriv(c18rKey2)
+		enc = c18rOtherKey(enc)
+	case "fp-good-k1", "fp-good-k2", "fp-alt-k1", "fp-alt-k2": // an explicit (fingerprint, key) pair: valid or not, depending on the group
+		fp, enc = class[3:len(class)-3], class[len(class)-2:]
+	case "other-group-key": // a header that is valid for ANOTHER group of the same server, but not for this one
+		fp = "nobody"
+		for d := 1; d < len(e.groups); d++ {
+			o := e.groups[(g.idx+d)%len(e.groups)]
+			if len(o.keys) == 0 {
+				continue
+			}
+			if f, k := o.validPair(); k != "missing" && !g.accepts(f, k) {
+				fp, enc = f, k
+				break
+			}
+		}
 	case "other-body":
 		sb = append(append([]byte{}, body...), 'x')
 	case "other-method":
@@ -571,7 +683,8 @@ func (e *c18rSrv) csHeader(g *c18rGroup, class, method, path, query string, body
 	}
 	tss := strconv.FormatInt(ts, 10)
 	plain := "version=v1; type=0; key=" + base64.StdEncoding.EncodeToString(hkey) + "; time=" + tss
-	secret := c18rRsaEncrypt(encTo, []byte(plain))
+	secret := c18rRsaEncrypt(c18rKeyOf(enc), []byte(plain))
+	e.fp, e.enc = fp, enc
 	signKey := hkey
 	if class == "other-hmac-key" {
 		signKey = key[16:]
@@ -635,6 +748,7 @@ func c18rStart(dir string) func(cfg verifh.Cfg) (func(op []string) string, func(
 					r.Header.Set("Authorization", auth)
 				}
 				wall := time.Now().Unix()
+				e.fp, e.enc = "", "-"
 				if hv := e.csHeader(g, kv["cs"], method, path, query, body, wall); hv != "" {
 					r.Header.Set("X-Content-Security", hv)
 				}
@@ -644,13 +758,13 @@ func c18rStart(dir string) func(cfg verifh.Cfg) (func(op []string) string, func(
 				}
 				facts, claims := c18rTokenFacts(auth, g.secret, prev)
 				csok := 0
-				if c18rCsFact(r, body, e.keys, wall) {
+				if c18rCsFact(r, body, g.keyMap(), wall, g.tol) {
 					csok = 1
 				}
 				e.ran, e.cm, e.use, e.ucb, e.scb, e.seen, e.ctx, e.claims = 0, 0, 0, 0, 0, nil, map[string]string{}, claims
 				rec := httptest.NewRecorder()
 				e.svr.router.ServeHTTP(rec, r)
-				return fmt.Sprintf("%s csok=%d ran=%d status=%d ctx=%s cm=%d use=%d ucb=%d scb=%d seen=%s", facts, csok, e.ran,
+				return fmt.Sprintf("%s fp=%s enc=%s csok=%d ran=%d status=%d ctx=%s cm=%d use=%d ucb=%d scb=%d seen=%s", facts, c18rHex([]byte(e.fp)), e.enc, csok, e.ran,
 					rec.Code, c18rPairs(e.ctx), e.cm, e.use, e.ucb, e.scb, c18rHex(e.seen))
 			}
 			return "bad-op"
@@ -671,10 +785,13 @@ var c18rTokClasses = []string{"none", "valid", "valid-hs512", "prev", "other-gro
 	"expired", "not-yet", "alg-none", "alg-rs256", "garbage", "basic", "tampered", "nosig"}
 
 var c18rCsClasses = []string{"none", "valid", "stale", "future", "unknown-fp", "secret-to-other-key", "other-body",
-	"other-method", "other-path", "other-query", "bad-sig", "other-hmac-key"}
+	"other-method", "other-path", "other-query", "bad-sig", "other-hmac-key", "fp-good-k1", "fp-good-k2", "fp-alt-k1", "fp-alt-k2",
+	"other-group-key", "stale-short", "future-short"}
 
 var c18rGroupKinds = []string{"-", "jwt", "jwtt", "sig", "sigl", "sign", "jwt+sig", "jwtt+sig", "jwt+sigl", "sig+jwt", "pfx", "jwt+pfx",
-	"pfx+jwtt", "sig+pfx", "pfx+jwt+sig", "prio+jwt", "mb+sig", "to+jwtt", "jwt+jwtt", "jwtt+jwt", "prio", "mb+to"}
+	"pfx+jwtt", "sig+pfx", "pfx+jwt+sig", "prio+jwt", "mb+sig", "to+jwtt", "jwt+jwtt", "jwtt+jwt", "prio", "mb+to",
+	"sig2", "sigb", "sigx", "sigd", "jwt+sig2", "sig+sig2", "sig2+sig", "sigb+pfx", "sigt", "jwt+sigt", "sigt+sig", "sig+sigt", "jwtte",
+	"jwtt+jwtte", "jwtte+jwtt", "jwtte+sig"}
 
 func c18rWord(r *verifh.Rng, n int) string {
 	const al = "abcdefghijklmnopqrstuvwxyz0123456789"
@@ -719,9 +836,34 @@ func c18rGenSection(r *verifh.Rng, idx int, kindPlan *[]int) verifh.Section {
 		}
 		gs = append(gs, c18rGroupKinds[k])
 	}
+	// several groups with their OWN private keys on one server (decrypters are per group, never per server)
+	if idx%3 == 1 {
+		if ngroups < 2 {
+			ngroups = 2
+			gs = append(gs, "-")
+		}
+		pair := [][2]string{{"sig", "sig2"}, {"sig2", "sig"}, {"sig", "sigx"}, {"sigx", "sig"}, {"sig2", "sigb"}, {"sigb", "sigx"},
+			{"sigl", "sig2"}, {"jwt+sig", "sig2+pfx"}, {"sigd", "sigx"}, {"sig2", "sigd"}, {"sig", "sigt"}, {"sigt", "sig"}}[(idx/3)%12]
+		at := r.Intn(ngroups - 1)
+		gs[at], gs[at+1] = pair[0], pair[1]
+		if ngroups > 2 && r.Chance(1, 2) { // not adjacent, any order of binding
+			o := (at + 2) % ngroups
+			gs[at+1], gs[o] = gs[o], gs[at+1]
+			gs[o] = pair[1]
+		}
+	}
+	nkeyed := 0
+	for _, gk := range gs {
+		if strings.Contains(gk, "sig") && !strings.Contains(gk, "sign") && !strings.Contains(gk, "sigs") {
+			nkeyed++
+		}
+	}
 	strictNoKeys := r.Chance(1, 12)
 	if strictNoKeys {
 		gs[r.Intn(len(gs))] = r.PickS("sigs", "jwt+sigs", "sigs+pfx")
+	}
+	if !strictNoKeys && r.Chance(1, 14) {
+		gs[r.Intn(len(gs))] = r.PickS("sigm", "jwt+sigm", "sigm+pfx")
 	}
 	to := r.Pick(0, 0, 600000)
 	cfg := fmt.Sprintf("kind=rest chain=%s mw=%s ncm=%d nuse=%d cb=%d to=%d w=%s groups=%s", chainKind, mw, ncm, r.Pick(0, 0, 1, 2),
@@ -749,6 +891,11 @@ func c18rGenSection(r *verifh.Rng, idx int, kindPlan *[]int) verifh.Section {
 		case 6, 7, 8: // one change of the signature
 			cs = c18rCsClasses[cplan%len(c18rCsClasses)]
 			cplan++
+			if strings.Contains(strings.Join(gs, ","), "sigt") && hasSig && r.Chance(1, 4) {
+				cs = r.PickS("stale-short", "future-short")
+			} else if nkeyed > 1 && hasSig && r.Chance(1, 3) {
+				cs = r.PickS("other-group-key", "other-group-key", "fp-good-k1", "fp-good-k2", "fp-alt-k1", "fp-alt-k2")
+			}
 		case 9: // no credential at all
 			tok, cs = "none", "none"
 		}
